@@ -76,6 +76,13 @@ func (p *FakeProxy) Addr() string { return p.Ln.Addr().String() }
 // Close stops the server.
 func (p *FakeProxy) Close() { p.Srv.Close() }
 
+// ListCount returns the number of list calls received so far.
+func (p *FakeProxy) ListCount() int {
+	p.mu.Lock()
+	defer p.mu.Unlock()
+	return len(p.Lists)
+}
+
 // Push queues a list reply.
 func (p *FakeProxy) Push(ids []string) { p.batches <- ids }
 
